@@ -1,6 +1,6 @@
 """C11: Merkle proof checks are complete and sound (check_proof, check_block_header_proof, check_account_proof)."""
 from ..gen import cells as G
-from ..translate import arith, arith2, prooffull, cellctor
+from ..translate import arith, arith2, prooffull, cellctor, locsrc
 from ..gen import tlbvals as V
 
 SPEC = dict(
@@ -89,7 +89,9 @@ SPEC = dict(
                  ('check_proof.py check_proof / check_block_header_proof / check_account_proof (both modes) / check_shard_proof (whole functions)->Generated/ProofFull.lean', prooffull.regenerate),
                  ('exotic.py LevelMask->Generated/LevelMask.lean', arith.regenerator('LevelMask')),
                  ('cell.py d1/d2/pruned offsets->Generated/CellArith.lean', arith.regenerator('CellArith')),
-                 ('cell.py Cell.__init__/resolve_mask/calculate_hashes/get_hash/get_depth->Generated/CellCtor.lean', cellctor.regenerate)],
+                 ('cell.py Cell.__init__/resolve_mask/calculate_hashes/get_hash/get_depth->Generated/CellCtor.lean', cellctor.regenerate),
+                 ('tlb/*.py parser classes under the TL-B walk (ShardIdent, CurrencyCollection, DepthBalanceInfo, Account, McStateExtra ...)->Generated/TlbParsers{,Tx,Blk}.lean', locsrc.regenerate_deps),
+                 ('tlb/account.py ShardAccount (cell= kept), tlb/block.py ShardAccounts, ShardStateUnsplit->Generated/LocateSrc.lean', locsrc.regenerate)],
     design_ref='DESIGN.md §6 C11',
     rule='trees (ordinary DAGs, exotic trees with library cells and inner Merkle proofs/updates, block-like shapes), random pruning sets at Merkle '
          'depth 1, proof = MPROOF cell over the pruned tree; positive stream must be accepted by check_proof/check_block_header_proof; negative '
@@ -1537,6 +1539,27 @@ def src_fn_search(ctx):
     return len(ctx.failures) > n0
 
 
+def src_walk_differs(ctx):
+    """Search mode only: is there a synthetic shard state (the walk stream's generator, fixed seed) on which the REGENERATED walk
+    (`srcLocate`, Generated/LocateSrc.lean) and the hand model `locateAccount srcOpaque` differ (driver op `srcloc` answers `ne`)?  The
+    differing states are instances of the walk stream, whose cases go through the account oracle (`run_account_case`: verdict known by
+    construction) and the dictionary oracle (`run_walk_case`: the library's result must be the entry the lookup-only walk finds)."""
+    import random
+    try:
+        probe = type(ctx)(ctx.prop, 'quick', ctx.seed)
+        probe._model = ctx.model
+        walk_stream(probe, random.Random(20240930))
+        lines = [p[0] for p in probe._pending if p[0].startswith('srcloc ')]
+        ans = ctx.model.run(lines)
+    except Exception as e:
+        ctx.notes.append(f'source-diff search (LocateSrc) failed: {type(e).__name__}: {e}')
+        return False
+    ne = [l for l, a in zip(lines, ans) if not a.startswith('eq')]
+    if ne:
+        ctx.notes.append(f'regenerated TL-B walk differs from the hand model on {len(ne)} of {len(lines)} synthetic shard states, e.g. {ne[0][:160]}')
+    return bool(ne)
+
+
 def src_families(ctx, rng):
     """every root-cell family on Merkle proofs over unpruned chains of depth 0..9, and block-like trees with honest / forged state updates"""
     for depth in range(0, 10):
@@ -1586,6 +1609,8 @@ def run(ctx):
         streams = [account_stream, shard_stream, walk_stream, generic_streams, extra_stream]     # a test of check_account_proof differs: look there first
     if ctx.search:                   # the shard oracle is cheap (< 1 s): first when an obligation is broken
         streams = [shard_stream] + [st for st in streams if st is not shard_stream]
+        if src_walk_differs(ctx):    # the regenerated TL-B walk differs from the hand model: the walk / account oracles first
+            streams = [walk_stream, account_stream] + [st for st in streams if st not in (walk_stream, account_stream)]
     for stream in streams:
         stream(ctx, rng)
         if ctx.search and ctx.failures:
